@@ -307,8 +307,14 @@ func (ar armRule) mergeFlow() {
 	ov, oenv := inlineVal(mg.Call.Args[0], menv)
 	if ld, ok := ov.(*ssa.UnOp); ok && ld.Op == token.MUL {
 		if ia, ok := ld.X.(*ssa.IndexAddr); ok {
-			if sia, isIA := st.Ins.(*ssa.Store).Addr.(*ssa.IndexAddr); isIA {
-				oldOK = sameE(ia.X, oenv, sia.X, nil, 0) && sameE(ia.Index, oenv, sia.Index, nil, 0)
+			if sx, si, isIA := effElem(st); isIA {
+				oldOK = sameE(ia.X, oenv, sx, nil, 0) && sameE(ia.Index, oenv, si, nil, 0)
+			}
+			// load and store side by side in one helper: compared in the helper's own terms
+			if inner, isSt := st.Inner.(*ssa.Store); !oldOK && isSt && inner.Parent() == ld.Parent() {
+				if sia, isIA := inner.Addr.(*ssa.IndexAddr); isIA {
+					oldOK = sameExpr(ia.X, sia.X) && sameExpr(ia.Index, sia.Index)
+				}
 			}
 		}
 	}
@@ -354,7 +360,31 @@ func ruleStorageArms(r *Report) {
 			ar.must(opPut, "value-store", "value-store")
 		}
 		ar.must(opDelete, "presence-clear", "presence-clear")
-		ar.never(opDelete, "presence-set or value-store", "presence-set", "value-store")
+		if b.Kind == "numeric" || b.Kind == "string" {
+			// a kind that merges combines the delta with whatever the slot holds: the slot of a deleted
+			// row is reset to the zero value, so that a merge into the next row at that offset starts
+			// where it starts at an offset that was never used
+			ar.never(opDelete, "presence-set", "presence-set")
+			ok := ar.b.Loop.Must(opDelete, "value-store")
+			for _, e := range ar.b.Loop.May(opDelete, "value-store") {
+				z := false
+				if k, isC := constInt(e.Val); isC && k == 0 {
+					z = true
+				}
+				if c, isC := strip(e.Val).(*ssa.Const); isC && c.Value != nil && (c.Value.String() == "0" || c.Value.String() == `""`) {
+					z = true
+				}
+				if cs, isS := constString(e.Val); isS && cs == "" {
+					z = true
+				}
+				if !z {
+					ok = false
+				}
+			}
+			h.Check(ok, b.Name+"/Delete/must-value-clear", r.P.Pos(b.Fn.Pos()), "the slot of a deleted row is reset to the zero value", "deleting a row leaves its value in the slot of a column kind that merges: a Merge into the next row inserted at that offset combines its delta with the dead row's value (MergeInt64(1) over a deleted 5 reads 6)")
+		} else {
+			ar.never(opDelete, "presence-set or value-store", "presence-set", "value-store")
+		}
 		for _, op := range []int{opInsert, opSkip} {
 			ar.never(op, "a storage effect", "presence-set", "presence-clear", "value-store", "table-insert", "table-delete")
 		}
@@ -555,9 +585,11 @@ func ruleKeyArms(r *Report) {
 		for _, d := range dels {
 			if ld, ok := unwrapCopy(d.Val).(*ssa.UnOp); ok && ld.Op == token.MUL {
 				if ia, ok := ld.X.(*ssa.IndexAddr); ok && len(sts) > 0 {
-					sia := sts[0].Ins.(*ssa.Store).Addr.(*ssa.IndexAddr)
-					if sameExpr(ia.X, sia.X) && sameExpr(ia.Index, sia.Index) {
-						rekey = true
+					if sx, si, isIA := effElem(sts[0]); isIA {
+						dx, di := bound(d, ia.X), bound(d, ia.Index)
+						if sameExpr(dx, sx) && sameExpr(di, si) {
+							rekey = true
+						}
 					}
 				}
 			}
@@ -911,4 +943,32 @@ func delegateLoop(p *Prog, b *applyBody) {
 		return
 	}
 	b.Outer, b.OuterOps, b.Loop = outer, opsAt[blk], inner
+}
+
+// bound: a value of the helper an inlined effect sits in, seen from the loop body (the helper's
+// parameter replaced by the argument of the call).
+func bound(e Effect, v ssa.Value) ssa.Value {
+	if e.Bind != nil {
+		if a := e.Bind(strip(v)); a != nil {
+			return a
+		}
+	}
+	return v
+}
+
+// effElem: the slice and index of the element a value-store effect writes, in the loop body's terms.
+func effElem(e Effect) (x, idx ssa.Value, ok bool) {
+	ins := e.Ins
+	if e.Inner != nil {
+		ins = e.Inner
+	}
+	st, isSt := ins.(*ssa.Store)
+	if !isSt {
+		return nil, nil, false
+	}
+	ia, isIA := st.Addr.(*ssa.IndexAddr)
+	if !isIA {
+		return nil, nil, false
+	}
+	return bound(e, ia.X), bound(e, ia.Index), true
 }
